@@ -102,6 +102,28 @@ def run(ctx, res):
     for fn, which in (("mtbl_compress", "compress"), ("mtbl_compress_level", "compress"), ("mtbl_decompress", "decompress")):
         f = prog.need(fn, U)
         res.saw(f)
+        # a dispatcher may hand its work, type and buffers unchanged, to a sibling dispatcher of the same direction on every
+        # path: exhaustiveness and pairing are then the sibling's (checked in its own turn)
+        sib = {"compress": ("mtbl_compress", "mtbl_compress_level"), "decompress": ("mtbl_decompress",)}[which]
+        evd = APE.run(prog, cg, f, bound=APE.BOUND)
+        dpaths = [p for p in evd.paths if p.end == "exit"]
+        deleg = bool(dpaths)
+        pn_ = [x["name"] for x in f.params]
+        data_ = [("s", n) for n in pn_ if n not in (pn_[0], "compression_level")]
+        for p in dpaths:
+            dc = [e for e in p.events if e.kind == "call" and e.a in sib and e.a != fn]
+            g_ = prog.func(dc[0].a, U) if dc else None
+            if len(dc) != 1 or g_ is None or p.ret() != dc[0].c or dc[0].b[0] != ("s", pn_[0]):
+                deleg = False
+                break
+            gp = [x["name"] for x in g_.params]
+            gdata = [dc[0].b[i] for i, n in enumerate(gp) if n not in (gp[0], "compression_level")]
+            if gdata != data_:
+                deleg = False
+                break
+        if deleg:
+            res.ok("C15.R1", site(f, "delegates"), "%s hands (type, input, size, output, output_size) unchanged to %s on every path" % (fn, dc[0].a))
+            continue
         tab = switch_table(prog, cg, f, f.params[0]["name"])
         for c, r in rows.items():
             ps = [p for p in tab.get(c, []) if p.end == "exit"]
